@@ -50,7 +50,11 @@ int main()
     std::vector<double> a;
     for (size_t i = 1; i < t.size(); ++i) {a.push_back(vh::rf(t[i]));}
     if (t[0] == "smart" && a.size() == 6) {
-      SmartRotation3D s(a[0], a[1], a[2]);
+      // the helper is re-initialised in place by its users: build it for other angles, read a derivative, then
+      // init() it with the case's angles (alternating the two init overloads) — nothing of the first use may remain
+      SmartRotation3D s(0.3 - a[1], a[2] + 0.7, 0.2 - a[0]);
+      (void)s.dRdAngleAroundXAxis(); (void)s.dRTdAngles(Eigen::Vector3d(1, 2, 3));
+      if (a[3] > 0) {s.init(a[0], a[1], a[2]);} else {s.init(Eigen::Vector3d(a[0], a[1], a[2]));}
       Eigen::Vector3d v(a[3], a[4], a[5]);
       putm(s.R());
       putm(s.dRdAngleAroundXAxis());
